@@ -885,6 +885,23 @@ func TestVerifC19Edns(t *testing.T) {
 		}
 		noedns := msg.IsEdns0() == nil
 		reqOPT := msg.IsEdns0()
+		// facts the layer composes its reply OPT from, read off the query BEFORE the handler runs: on the
+		// message-born path SetEdns0 empties the selected OPT of this very message
+		hasCookie, hasNSID, hasKA := false, false, false
+		if reqOPT != nil {
+			for _, o := range reqOPT.Option {
+				switch x := o.(type) {
+				case *dns.EDNS0_COOKIE:
+					if len(x.Cookie) >= 16 {
+						hasCookie = true
+					}
+				case *dns.EDNS0_NSID:
+					hasNSID = true
+				case *dns.EDNS0_TCP_KEEPALIVE:
+					hasKA = true
+				}
+			}
+		}
 
 		// scripted next handler
 		called, marker := false, false
@@ -1003,22 +1020,6 @@ func TestVerifC19Edns(t *testing.T) {
 				"go_fail": goFail, "nontrivial": anyECS,
 				"desc": map[string]any{"ecs_cfg": fmt.Sprintf("%+v", b), "remote": remote.String(), "path": path, "query_extra": qdesc, "upstream_extra": sdesc, "marker": marker}})
 			if w.msg != nil && wroteBytes {
-				// facts the layer composes the OPT from
-				hasCookie, hasNSID, hasKA := false, false, false
-				if sel := msg.IsEdns0(); sel != nil {
-					for _, o := range sel.Option {
-						switch x := o.(type) {
-						case *dns.EDNS0_COOKIE:
-							if len(x.Cookie) >= 16 {
-								hasCookie = true
-							}
-						case *dns.EDNS0_NSID:
-							hasNSID = true
-						case *dns.EDNS0_TCP_KEEPALIVE:
-							hasKA = true
-						}
-					}
-				}
 				var codes []string
 				nOPT := 0
 				for _, rr := range w.msg.Extra {
